@@ -310,6 +310,35 @@ theorem translated_system_join_bounded {U : List Entry} {L : List Log} (r : TRea
   rw [hEu.1, hEu.2]
   exact hv
 
+/-- **C09 over histories**: a replica of a reachable state rebuilt through the translated `fromJSON` glue and the
+    translated `NewLog` core from any complete fetch of its entries (each once, any arrival order) has the same
+    entries, the same heads and — under an ordering that is a strict total order on them — the translated
+    `ToSnapshot` lists the same values for both -/
+theorem translated_system_load {U : List Entry} {L : List Log} (r : TReach U L) {l : Log} (hl : l ∈ L)
+    (fetched : List Entry) (hnd : (hashes fetched).Nodup) (hin : ∀ e ∈ fetched, e ∈ U)
+    (hset : ∀ h, h ∈ hashes fetched ↔ h ∈ hashes l.entries) (cid : Bytes) (ho : OrderOk l.sortFn l.entries) :
+    ∃ (ents : List Entry) (t : Int) (H : List Entry) (N : List Hash) (hs₁ hs₂ vs : List _),
+      Generated.Go.fromJSONTail none fetched = some ents ∧
+      Generated.Go.newLogCore none [] ents = (t, H, N) ∧
+      (∀ x, x ∈ ents ↔ x ∈ l.entries) ∧ (∀ x, x ∈ H ↔ x ∈ l.heads) ∧
+      Generated.Go.toSnapshot (traverseFuel l.entries l.heads) l.entries (before l.sortFn) l.heads = some (hs₁, vs) ∧
+      Generated.Go.toSnapshot (traverseFuel ents H) ents (before l.sortFn) H = some (hs₂, vs) := by
+  have T := treach_inv r
+  have I := T.inv l hl
+  obtain ⟨ents, t, H, N, hf, hn, hE, hH, hinv⟩ := translated_rebuild_json T.uNodup I fetched hnd hin hset cid
+  have hne : ∀ e ∈ l.entries, e.hash ≠ [] := fun e he => T.uNe e (I.inU e he)
+  have hne' : ∀ e ∈ ents, e.hash ≠ [] := fun e he => hne e ((hE e).mp he)
+  have s1 := toSnapshot_eq l hne (fun e he => hne e (I.headsIn e he))
+  have s2 := toSnapshot_eq { id := l.id, entries := ents, heads := H, nextIdx := N, clock := ⟨cid, t⟩, sortFn := l.sortFn }
+    hne' (fun e he => hne' e (hinv.headsIn e he))
+  have hperm : l.entries.Perm ents :=
+    (List.perm_ext_iff_of_nodup (nodup_of_hashes_nodup I.nodup) (nodup_of_hashes_nodup hinv.nodup)).mpr
+      (fun x => (hE x).symm)
+  have hv := values_fn_of_set I hinv rfl ho hperm
+  refine ⟨ents, t, H, N, hashes l.heads, hashes H, values l, hf, hn, hE, hH, s1, ?_⟩
+  rw [hv]
+  exact s2
+
 /-- progress: in a reachable state the translated `Append` of any replica (ordering a strict total order on its
     entries, any pointer count, a fresh non-empty CID) returns, and its result is reachable -/
 theorem treach_can_append {U : List Entry} {L : List Log} (r : TReach U L) {i : Nat} {l : Log} (hl : L[i]? = some l)
